@@ -1081,6 +1081,9 @@ def aten_baddbmm(
         mul_a = batch_mul
     else:
         mul_a = op.Mul(batch_mul, op.CastLike(alpha, self))
+    if isinstance(beta, (int, float)) and beta == 0:
+        # PyTorch ignores self when beta is 0: nan and inf in it are not propagated
+        return mul_a
     if beta is None or beta == 1:
         mul_b = self
     else:
